@@ -62,6 +62,9 @@ def _ev(tag, env, memo):
         if op == "fMul":
             return a * b
         return a / b
+    if op in ("fmax", "fmin"):
+        a, b = ev(tag[1], env, memo), ev(tag[2], env, memo)
+        return max(a, b) if op == "fmax" else min(a, b)
     if op == "neg":
         return -ev(tag[1], env, memo)
     if op == "sqrt":
